@@ -82,19 +82,20 @@ def single_unit(unit: Tuple[int, List[int]]) -> Part:
 def seq_unit(unit: Tuple[int, Tuple[int, ...]]) -> Part:
     """(b) several telegrams in a row on one ID through ONE state machine."""
     from odxtools.isotp_state_machine import IsoTpStateMachine
-    tx_dl, lens = unit
+    tx_dl, lens = unit[0], unit[1]
+    same = len(unit) > 2 and unit[2] == "same"  # the very same telegram (payload and padding) several times in a row
     part = Part()
     sm = IsoTpStateMachine([IDS[0]])
     frames: List[Tuple[int, bytes]] = []
     expect = []
     for k, n in enumerate(lens):
-        p = pattern(n, k + 3)
+        p = pattern(n, 3 if same else k + 3)
         expect.append((IDS[0], p))
-        frames += [(IDS[0], f) for f in segment(p, tx_dl, [None, 0xAA, 0x00][k % 3])]
+        frames += [(IDS[0], f) for f in segment(p, tx_dl, 0xAA if same else [None, 0xAA, 0x00][k % 3])]
     out, exc = feed(sm, frames)
     part.count("telegram_sequences")
     part.add("nontrivial", ("seq", tx_dl, tuple(size_class(n, tx_dl) for n in lens)))
-    case = {"mode": "seq", "tx_dl": tx_dl, "lens": list(lens)}
+    case = {"mode": "seq", "tx_dl": tx_dl, "lens": list(lens), "same": same}
     if exc is not None:
         part.violation("C12/sequence/raises", case, exc)
     elif out != expect:
@@ -326,10 +327,14 @@ def active_unit(unit: Tuple[Tuple[Tuple[str, ...], ...], int]) -> Part:
     scripts = scripts_for(combo)
     n = len(combo)
     tx_ids = [0x7E0, 0x7E1, 0x18DA10F1][:n]
-    for sched in ("sequential", "round-robin", "sequential/ids-descending", "round-robin/ids-descending"):
+    for sched in ("sequential", "round-robin", "sequential/ids-descending", "round-robin/ids-descending", "sequential/via-snoop", "round-robin/via-snoop"):
         bus = FakeBus()
         if sched.endswith("descending"):  # the pairing of receive and transmit IDs is by position, whatever their order
             dec = IsoTpActiveDecoder(bus, list(reversed(IDS[:n])), list(reversed(tx_ids)), padding_size=padding)  # type: ignore[arg-type]
+        elif sched.endswith("via-snoop"):  # the decoder `odxtools snoop --active` builds around the active decoder
+            from odxtools.cli.snoop import init_verbose_state_machine
+            with contextlib.redirect_stdout(io.StringIO()):
+                dec = init_verbose_state_machine(IsoTpActiveDecoder, can_bus=bus, can_rx_ids=list(IDS[:n]), can_tx_ids=tx_ids, padding_size=padding)
         else:
             dec = IsoTpActiveDecoder(bus, list(IDS[:n]), tx_ids, padding_size=padding)  # type: ignore[arg-type]
         order: List[Tuple[int, bytes]] = []
@@ -350,7 +355,9 @@ def active_unit(unit: Tuple[Tuple[Tuple[str, ...], ...], int]) -> Part:
         for i, f in order:
             before = len(bus.sent)
             try:
-                for c, t in dec.decode_rx_frame(IDS[i], f):
+                with contextlib.redirect_stdout(io.StringIO()):  # (the snoop-built decoder narrates every frame)
+                    got_now = list(dec.decode_rx_frame(IDS[i], f))
+                for c, t in got_now:
                     out[IDS.index(c)].append(bytes(t))
             except Exception as e:  # noqa
                 part.violation("C12/active/raises", case, f"{type(e).__name__}: {e}")
@@ -447,6 +454,10 @@ def run(ctx: Ctx) -> None:
                 if not q or tx_dl == 8:
                     for c in lens[:4]:
                         sunits.append((tx_dl, (a, b, c)))
+    for tx_dl, lens in reps.items():  # periodic traffic: identical telegrams back to back
+        for a in lens:
+            sunits.append((tx_dl, (a, a), "same"))
+            sunits.append((tx_dl, (a, a, a), "same"))
     pmap(ctx, seq_unit, sunits, chunksize=8)
     # (c)
     shapes = list(SHAPES)
@@ -509,7 +520,7 @@ def replay(case: Any) -> List[Tuple[str, str]]:
     if mode == "single":
         p = single_unit((case["tx_dl"], [case["len"]]))
     elif mode == "seq":
-        p = seq_unit((case["tx_dl"], tuple(case["lens"])))
+        p = seq_unit((case["tx_dl"], tuple(case["lens"]), "same" if case.get("same") else "distinct"))
     elif mode == "text":
         p = text_unit((case["tx_dl"], tuple(case["lens"]), case["fmt"], case.get("noise", False)))
     elif mode == "active-len":
